@@ -147,7 +147,8 @@ def nonlin_posterior(ctx, rec):
     model = Model(pf, range_geometry=A.shape[0], domain_geometry=n)
     nc = rec.get("noise_cov", 0.5)
     lik = Gaussian(model(prior), nc, name="y").to_likelihood(y)
-    ref_loglik = lambda x: float(-0.5 * np.sum((y - fwd(x)) ** 2) / nc)
+    mdim = A.shape[0]
+    ref_loglik = lambda x: float(-0.5 * np.sum((y - fwd(x)) ** 2) / nc - 0.5 * mdim * np.log(2 * np.pi * nc))
     return Posterior(lik, prior), {"forward": pf, "ref_loglik": ref_loglik, "A": A, "y": y}
 
 
